@@ -144,6 +144,12 @@ async fn unix_peer_path_not_utf8() {
         "poll_accept reported {:?} for an intact listener: the peer's socket path is not UTF-8",
         r.as_ref().err()
     );
+    // the accept loop records the connection info of every accepted stream (inside the serving future): that must
+    // not panic for this peer either
+    use crate::info::HasConnectionInfo as _;
+    let stream = r.unwrap();
+    let info = std::panic::catch_unwind(std::panic::AssertUnwindSafe(|| stream.info()));
+    assert!(info.is_ok(), "info() of a stream accepted from a peer bound to a non-UTF-8 path panicked (inside the accept loop)");
 }
 
 /// acc.next_* [C09]: the `Stream` view of the listener: a cancelled connect yields no error item, the healthy
